@@ -560,6 +560,15 @@ package connect
 //@ axiom wrapAll_nil: forall kind int, l seq, f ref :: {wrapAll(kind, l, f)} |l| == 0 ==> wrapAll(kind, l, f) == f
 //@ axiom wrapAll_cons: forall kind int, l seq, f ref :: {wrapAll(kind, l, f), unfoldWrap(l)} |l| > 0 ==> wrapAll(kind, l, f) == wrap1(kind, l[0], wrapAll(kind, l[1:], f))
 
+//@ axiom wrap1_returns_a_function: forall kind int, leaf ref, f ref :: {wrap1(kind, leaf, f)} f != nil ==> wrap1(kind, leaf, f) != nil
+//@   doc: "assumed of user interceptors: given a function, a Wrap method returns a function (a nil result would panic at the first call)"
+//@ lemma wrapAll_nonnil(kind int, l seq, f ref): f != nil ==> wrapAll(kind, l, f) != nil
+//@   tags C16, C12
+//@   measure |l|
+//@   generalizing l
+//@   hint unfoldWrap(l)
+//@   trigger wrapAll(kind, l, f)
+
 //@ lemma wrap_append(kind int, a seq, b seq, f ref): wrapAll(kind, a ++ b, f) == wrapAll(kind, a, wrapAll(kind, b, f))
 //@   tags C16
 //@   measure |a|
@@ -1041,7 +1050,7 @@ package connect
 //@   doc: "Unmarshal parses the JSON-encoded data and stores the result in the value pointed to by v: it writes to v (a value the caller allocated) and to objects it allocates itself, nothing else."
 
 //@ func (*connectStreamingUnmarshaler).Unmarshal(u, message) res
-//@   tags C04, C06
+//@   tags C04, C05, C06, C11
 //@   requires u != nil && u.envelopeReader.reader != nil && !pooled(u.envelopeReader.reader) && termerr(u.envelopeReader.reader) != errSpecialEnvelope && u.envelopeReader.bufferPool != nil && u.envelopeReader.codec != nil
 //@   assigns everything
 //@   ensures res == nil ==> old(completeFrame(u.envelopeReader, rest(u.envelopeReader.reader)) && (rest(u.envelopeReader.reader)[0] == 0 || rest(u.envelopeReader.reader)[0] == 1))   // label: a-message-only-from-a-complete-data-frame
@@ -1317,7 +1326,7 @@ package connect
 //@   tags C01, C05, C08
 //@   requires c != nil && header != nil && c.protocolClientParams.Codec != nil && c.protocolClientParams.CompressionPools != nil
 //@   assigns mapof(header), mapvals(header)
-//@   ensures streamType == 0 ==> hdom(header, "Content-Encoding") == old(hdom(header, "Content-Encoding")) && hraw(header, "Content-Encoding") == old(hraw(header, "Content-Encoding"))   // label: unary-request-encoding-is-left-to-the-marshaler   // tags: C01, C08
+//@   ensures streamType == 0 ==> hdom(header, "Content-Encoding") == old(hdom(header, "Content-Encoding")) && hraw(header, "Content-Encoding") == old(hraw(header, "Content-Encoding"))   // label: unary-request-encoding-is-left-to-the-marshaler   // tags: C01, C05, C08
 //@   ensures streamType != 0 && c.protocolClientParams.CompressionName != "" && c.protocolClientParams.CompressionName != "identity" ==> hdom(header, "Connect-Content-Encoding") && hraw(header, "Connect-Content-Encoding") == [c.protocolClientParams.CompressionName]   // label: streaming-request-names-its-compression   // tags: C05, C08
 //@   ensures streamType != 0 && (c.protocolClientParams.CompressionName == "" || c.protocolClientParams.CompressionName == "identity") ==> hdom(header, "Connect-Content-Encoding") == old(hdom(header, "Connect-Content-Encoding"))   // label: no-compression-no-encoding-header   // tags: C05, C08
 //@   ensures hdom(header, "Content-Type") && hraw(header, "Content-Type") == [callres("connectContentTypeFromCodecName", 1)]   // label: content-type-names-protocol-and-codec   // tags: C05
@@ -1535,3 +1544,149 @@ package connect
 //@   assigns everything
 //@   assert@call((*connectStreamingMarshaler).MarshalEndStream#1): arg1 == err && arg2 == hc.responseTrailer   // label: the-handler's-error-and-trailers-go-into-the-end-of-stream-message
 //@   ensures res != nil ==> coded(res)
+
+// ---------------------------------------------------------------------------
+// client.go: the typed client (C12: the Spec interceptors and the protocol see
+// is the client's; C02/C04: a write-side EOF never hides the server's answer;
+// C16: the interceptor chain is applied exactly once per call kind)
+// ---------------------------------------------------------------------------
+
+
+//@ trusted func AnyRequest.Any(r) res
+//@   pure
+//@ trusted func protocolClient.NewConn(p, ctx, spec, header) res
+//@   assigns everything
+//@   ensures res != nil
+//@ trusted func protocolClient.WriteRequestHeader(p, streamType, header)
+//@   assigns mapof(header), mapvals(header)
+//@ trusted func StreamingClientConn.Send(c, msg) err
+//@   assigns everything
+//@ trusted func StreamingClientConn.CloseRequest(c) err
+//@   assigns everything
+//@ trusted func StreamingClientConn.CloseResponse(c) err
+//@   assigns everything
+//@ trusted func StreamingClientConn.RequestHeader(c) res
+//@   pure
+//@   ensures res != nil
+
+// the unary call proper (innermost UnaryFunc, wrapped by the interceptors)
+//@ func NewClient$1(ctx, request) (res, err)
+//@   tags C12, C02, C04
+//@   requires request != nil && deref(protocolClient) != nil
+//@   assigns everything
+//@   assert@call(protocolClient.NewConn#1): arg2.Procedure == unarySpec.Procedure && arg2.StreamType == unarySpec.StreamType && arg2.IsClient == unarySpec.IsClient && arg3 == callres("AnyRequest.Header", 1)   // label: the-connection-gets-the-client's-unary-spec-and-the-request-headers   // tags: C12, C11
+//@   assert@call(StreamingClientConn.Send#1): arg1 == callres("AnyRequest.Any", 1)
+//@   ensures callres("StreamingClientConn.Send", 1) != nil && Is(callres("StreamingClientConn.Send", 1), io.EOF) ==> called("StreamingClientConn.CloseRequest", 2) && (callres("StreamingClientConn.CloseRequest", 2) == nil ==> called("receiveUnaryResponse", 1))   // label: a-write-side-eof-does-not-hide-the-server's-answer   // tags: C02, C04
+//@   ensures callres("StreamingClientConn.Send", 1) != nil && !Is(callres("StreamingClientConn.Send", 1), io.EOF) ==> err == callres("StreamingClientConn.Send", 1) && res == nil   // label: a-client-side-send-failure-is-returned
+//@   ensures called("receiveUnaryResponse", 1) && callres("receiveUnaryResponse", 1, 1) != nil ==> err == callres("receiveUnaryResponse", 1, 1) && res == nil   // label: the-server's-error-is-returned-never-a-response   // tags: C02
+
+//@ trusted func NewClient$2.unaryFunc(ctx, request) (res, err)
+//@   assigns everything
+//@ func NewClient$2(ctx, request) (res, err)
+//@   tags C12, C16
+//@   requires request != nil && deref(protocolClient) != nil && deref(unaryFunc) != nil
+//@   assigns everything
+//@   assert@call(NewClient$2.unaryFunc#1): typeis(arg1, "*Request") && cast(arg1, "*Request") == request && request.spec.Procedure == unarySpec.Procedure && request.spec.StreamType == unarySpec.StreamType && request.spec.IsClient == unarySpec.IsClient   // label: interceptors-see-the-client's-unary-spec   // tags: C12
+//@   assert@call(protocolClient.WriteRequestHeader#1): arg1 == 0   // label: protocol-headers-for-a-unary-call
+//@   ensures callres("NewClient$2.unaryFunc", 1, 1) != nil ==> err == callres("NewClient$2.unaryFunc", 1, 1) && res == nil   // label: errors-pass-through-unchanged   // tags: C02
+
+//@ func (*Client).CallServerStream(c, ctx, request) (res, err)
+//@   tags C02, C04, C11
+//@   requires c != nil && request != nil && (c.err == nil ==> c.config != nil && c.protocolClient != nil)
+//@   assigns everything
+//@   ensures old(c.err) != nil ==> err == old(c.err) && res == nil
+//@   assert@call(mergeHeaders#1): arg0 == callres("StreamingClientConn.RequestHeader", 1) && arg1 == request.header   // label: request-headers-reach-the-connection   // tags: C11
+//@   ensures called("StreamingClientConn.Send", 1) && callres("StreamingClientConn.Send", 1) != nil && Is(callres("StreamingClientConn.Send", 1), io.EOF) && callres("StreamingClientConn.CloseRequest", 2) == nil ==> err == nil && res != nil && res.conn == callres("(*Client).newConn", 1)   // label: a-write-side-eof-does-not-hide-the-server's-answer   // tags: C02, C04
+//@   ensures called("StreamingClientConn.Send", 1) && callres("StreamingClientConn.Send", 1) != nil && !Is(callres("StreamingClientConn.Send", 1), io.EOF) ==> err == callres("StreamingClientConn.Send", 1) && res == nil   // label: a-client-side-send-failure-is-returned
+
+//@ func (*Client).newConn$1(ctx, spec) res
+//@   tags C12, C11
+//@   requires deref(c) != nil && deref(c).protocolClient != nil
+//@   assigns everything
+//@   assert@call(protocolClient.NewConn#1): arg2.Procedure == spec.Procedure && arg2.StreamType == spec.StreamType && arg2.IsClient == spec.IsClient && arg3 != nil && fresh(arg3) && called("protocolClient.WriteRequestHeader", 1)   // label: the-connection-gets-the-spec-and-fresh-protocol-headers
+//@   assert@call(protocolClient.WriteRequestHeader#1): arg1 == streamType   // label: protocol-headers-for-this-stream-type
+
+//@ func (*clientConfig).newSpec(c, t) res
+//@   tags C12
+//@   requires c != nil
+//@   assigns nothing
+//@   ensures res.Procedure == c.Procedure && res.StreamType == t && res.IsClient   // label: client-spec
+//@ func (*handlerConfig).newSpec(c, streamType) res
+//@   tags C12
+//@   requires c != nil
+//@   assigns nothing
+//@   ensures res.Procedure == c.Procedure && res.StreamType == streamType && !res.IsClient   // label: handler-spec
+
+//@ trusted func (*Client).newConn.newConn(ctx, spec) res
+//@   assigns everything
+//@   ensures res != nil
+//@   doc: "the protocol's NewConn, possibly wrapped by user interceptors (WrapStreamingClient): assumed to return a connection"
+//@ func (*Client).newConn(c, ctx, streamType) res
+//@   tags C12, C16
+//@   use wrapAll_nonnil
+//@   requires c != nil && c.config != nil && c.protocolClient != nil
+//@   assigns everything
+//@   ensures res != nil
+//@   ensures (old(c.config.Interceptor) != nil) == called("Interceptor.WrapStreamingClient", 1)   // label: the-interceptor-chain-is-applied-once-iff-configured   // tags: C16
+//@   assert@call((*Client).newConn.newConn#1): arg1.Procedure == c.config.Procedure && arg1.StreamType == streamType && arg1.IsClient   // label: the-call-is-labelled-with-the-client's-procedure-and-stream-type
+
+// ---------------------------------------------------------------------------
+// C12: the content types a protocol handler accepts (and advertises)
+// ---------------------------------------------------------------------------
+
+//@ spec lmem(l strlist, x seq) bool = exists i int :: {l[i]} 0 <= i && i < len(l) && l[i] == x
+//@ func (*protocolConnect).NewHandler(p, params) res
+//@   tags C12
+//@   requires params != nil && params.Codecs != nil
+//@   assigns nothing
+//@   ensures res != nil && typeis(res, "*connectHandler") && fresh(res)
+//@   ensures let h := cast(res, "*connectHandler") in h.accept != nil && (forall ct seq :: {mapdom(h.accept, ct)} mapdom(h.accept, ct) ==> (if params.Spec.StreamType == 0 then |ct| >= 12 && ct[:12] == "application/" && lmem(callres("readOnlyCodecs.Names", 1), ct[12:]) else |ct| >= 20 && ct[:20] == "application/connect+" && lmem(callres("readOnlyCodecs.Names", 1), ct[20:])))   // label: accepts-only-this-stream-kind's-content-types
+//@   ensures let h := cast(res, "*connectHandler") in (forall i int :: {callres("readOnlyCodecs.Names", 1)[i]} 0 <= i && i < len(callres("readOnlyCodecs.Names", 1)) ==> mapdom(h.accept, (if params.Spec.StreamType == 0 then "application/" else "application/connect+") ++ callres("readOnlyCodecs.Names", 1)[i]))   // label: accepts-every-codec's-content-type
+//@   loop 1:
+//@     invariant contentTypes != nil && 0 - 1 <= rangeindex
+//@     invariant forall ct seq :: {mapdom(contentTypes, ct)} mapdom(contentTypes, ct) ==> (if params.Spec.StreamType == 0 then |ct| >= 12 && ct[:12] == "application/" && lmem(callres("readOnlyCodecs.Names", 1), ct[12:]) else |ct| >= 20 && ct[:20] == "application/connect+" && lmem(callres("readOnlyCodecs.Names", 1), ct[20:]))
+//@     invariant forall i int :: {callres("readOnlyCodecs.Names", 1)[i]} 0 <= i && i <= rangeindex ==> mapdom(contentTypes, (if params.Spec.StreamType == 0 then "application/" else "application/connect+") ++ callres("readOnlyCodecs.Names", 1)[i])
+//@     assigns mapof(contentTypes), mapvals(contentTypes)
+//@ macro grpcBare(web bool) seq = if web then "application/grpc-web" else "application/grpc"
+//@ macro grpcPrefix(web bool) seq = if web then "application/grpc-web+" else "application/grpc+"
+//@ func (*protocolGRPC).NewHandler(g, params) res
+//@   tags C12
+//@   requires g != nil && params != nil && params.Codecs != nil
+//@   assigns nothing
+//@   ensures res != nil && typeis(res, "*grpcHandler") && fresh(res) && cast(res, "*grpcHandler").web == g.web
+//@   ensures let h := cast(res, "*grpcHandler") in h.accept != nil && (forall ct seq :: {mapdom(h.accept, ct)} mapdom(h.accept, ct) ==> (ct == grpcBare(g.web) && callres("readOnlyCodecs.Get", 1) != nil) || (|ct| >= |grpcPrefix(g.web)| && ct[:|grpcPrefix(g.web)|] == grpcPrefix(g.web) && lmem(callres("readOnlyCodecs.Names", 1), ct[|grpcPrefix(g.web)|:])))   // label: accepts-only-this-protocol's-content-types
+//@   ensures let h := cast(res, "*grpcHandler") in (forall i int :: {callres("readOnlyCodecs.Names", 1)[i]} 0 <= i && i < len(callres("readOnlyCodecs.Names", 1)) ==> mapdom(h.accept, grpcPrefix(g.web) ++ callres("readOnlyCodecs.Names", 1)[i])) && (callres("readOnlyCodecs.Get", 1) != nil ==> mapdom(h.accept, grpcBare(g.web)))   // label: accepts-every-codec's-content-type-and-the-bare-one-with-proto
+//@   loop 1:
+//@     invariant contentTypes != nil && 0 - 1 <= rangeindex
+//@     invariant forall ct seq :: {mapdom(contentTypes, ct)} mapdom(contentTypes, ct) ==> |ct| >= |grpcPrefix(g.web)| && ct[:|grpcPrefix(g.web)|] == grpcPrefix(g.web) && lmem(callres("readOnlyCodecs.Names", 1), ct[|grpcPrefix(g.web)|:])
+//@     invariant forall i int :: {callres("readOnlyCodecs.Names", 1)[i]} 0 <= i && i <= rangeindex ==> mapdom(contentTypes, grpcPrefix(g.web) ++ callres("readOnlyCodecs.Names", 1)[i])
+//@     assigns mapof(contentTypes), mapvals(contentTypes)
+
+// ---------------------------------------------------------------------------
+// handler.go: constructors (C12: the Handler is labelled with its procedure
+// and stream type; C16: the configured interceptor chain is applied exactly
+// once, with the wrapper that matches the stream type)
+// ---------------------------------------------------------------------------
+
+//@ func newStreamHandler(procedure, streamType, implementation, options) res
+//@   tags C12, C16
+//@   requires implementation != nil
+//@   assigns everything
+//@   ensures res != nil && fresh(res) && res.spec.StreamType == streamType && res.spec.Procedure == callres("(*handlerConfig).newSpec", 1).Procedure && !res.spec.IsClient   // label: handler-labelled-with-procedure-and-stream-type
+//@   assert@call(Interceptor.WrapStreamingHandler#1): arg0 == callres("newHandlerConfig", 1).Interceptor && arg1 == implementation0   // label: the-configured-chain-wraps-the-implementation   // tags: C16
+//@   assert@call((*handlerConfig).newProtocolHandlers#1): (callres("newHandlerConfig", 1).Interceptor != nil) == called("Interceptor.WrapStreamingHandler", 1)   // label: interceptors-applied-iff-configured   // tags: C16
+//@   ensures res.implementation == (if called("Interceptor.WrapStreamingHandler", 1) then callres("Interceptor.WrapStreamingHandler", 1) else implementation0)   // label: interceptors-applied-exactly-once-around-the-implementation   // tags: C16
+//@   ensures res.protocolHandlers == callres("(*handlerConfig).newProtocolHandlers", 1)
+//@   assert@call((*handlerConfig).newProtocolHandlers#1): arg1 == streamType
+//@   assert@call((*handlerConfig).newSpec#1): arg1 == streamType && arg0 == callres("newHandlerConfig", 1)
+
+//@ func NewUnaryHandler(procedure, unary, options) res
+//@   tags C12, C16
+//@   assigns everything
+//@   ensures res != nil && fresh(res) && res.spec.StreamType == 0 && res.spec.Procedure == callres("(*handlerConfig).newSpec", 1).Procedure && !res.spec.IsClient   // label: handler-labelled-with-procedure-and-unary-stream-type
+//@   ensures res.implementation == implementation   // label: the-unary-adapter-is-not-wrapped-by-streaming-interceptors   // tags: C16
+//@   ensures !called("Interceptor.WrapStreamingHandler", 1) && !called("newStreamHandler", 1)   // label: no-streaming-wrapper-around-a-unary-handler   // tags: C16
+//@   assert@call(Interceptor.WrapUnary#1): arg0 == callres("newHandlerConfig", 1).Interceptor   // label: the-configured-chain-wraps-the-unary-function   // tags: C16
+//@   assert@call((*handlerConfig).newProtocolHandlers#1): (callres("newHandlerConfig", 1).Interceptor != nil) == called("Interceptor.WrapUnary", 1)   // label: unary-interceptors-applied-iff-configured   // tags: C16
+//@   assert@call((*handlerConfig).newProtocolHandlers#1): arg1 == 0
+//@   assert@call((*handlerConfig).newSpec#1): arg1 == 0 && arg0 == callres("newHandlerConfig", 1)
